@@ -318,7 +318,8 @@ class Reader:
     def global_decl(self, q):
         node, doc = self.comp["element"][q]
         return {"qname": q, "type": self.element_type(node, doc), "nillable": node.get("nillable") == "true",
-                "default": node.get("default"), "fixed": node.get("fixed")}
+                "default": node.get("default"), "fixed": node.get("fixed"),
+                "named_simple": bool(node.get("type")) and self.qname(node, node.get("type"), doc) in self.comp["simpleType"]}
 
     def members(self, q, seen=None):
         """q and every element that may substitute for it (transitively), abstract ones excluded"""
@@ -351,7 +352,8 @@ class Reader:
             qualified = (form == "qualified") if form is not None else doc.efd
             q = clark(doc.tns if qualified else None, p.get("name"))
             self.add_decl(decls, {"qname": q, "type": self.element_type(p, doc), "nillable": p.get("nillable") == "true",
-                                  "default": p.get("default"), "fixed": p.get("fixed")})
+                                  "default": p.get("default"), "fixed": p.get("fixed"),
+                                  "named_simple": bool(p.get("type")) and self.qname(p, p.get("type"), doc) in self.comp["simpleType"]})
             return self.occ(p, ["el", q])
         if k == "any":
             return self.occ(p, ["any", self.wns(p.get("namespace", "##any"), doc)])
